@@ -15,7 +15,12 @@ def seg_case(rng, kind=None, big=False):
     """returns dict(kind, V, children=[[(a,b),...],...])  (vertex indices 1..V)"""
     kinds = ["cycles", "cycles", "cycles", "cycles_sorted", "near", "near", "paths", "random", "dense", "selfloops"]
     kind = kind or rng.choice(kinds)
-    if big:
+    if big == "huge":
+        # vertex indices beyond 2^16 (a long boundary at fine resolution): index-width assumptions of the welding maps
+        V = rng.randint(66000, 72000)
+        # shuffled: tens of thousands of chains are open at the same time, as in a real walk of the quadtree
+        kind = "cycles"
+    elif big:
         V = rng.randint(300, 1500)
     else:
         V = rng.choice([1, 2, 3, 4, 5, 6, 8, 10, 12, 16, 24, 40, 64])
@@ -29,7 +34,7 @@ def seg_case(rng, kind=None, big=False):
             if kind == "selfloops" and rng.random() < 0.3:
                 ln = 1
             else:
-                ln = min(V - i, rng.choice([1, 2, 3, 4, 5, 8, 13, 30, 100, V]))
+                ln = min(V - i, rng.choice([1, 2, 3, 4, 5, 8, 13, 30, 100, V] if big != "huge" else [3000, 9000, 20000, V]))
                 if ln == 1 and kind != "selfloops" and V - i >= 2:
                     ln = 2
             cyc = verts[i:i + ln]
